@@ -24,7 +24,7 @@ def gen_cases(tier, seed):
     q = tier == "quick"
     cases = []
     for norb in ([2, 3, 4, 5] if q else [2, 3, 4, 5, 6]):
-        for rep in range(10 if q else 60):
+        for rep in range(10 if q else 400):
             cases.append({"type": "congruence", "norb": norb, "nchol": int(rng.integers(1, 5)), "s": int(rng.integers(1 << 30)), "group": "cong-%d" % norb})
     for nchol in ([33, 64, 70, 130] if q else [17, 32, 33, 63, 64, 65, 70, 100, 128, 129, 150, 200, 257]):
         cases.append({"type": "congruence", "norb": int(rng.choice([3, 5])), "nchol": nchol, "s": int(rng.integers(1 << 30)), "group": "congL-%d" % nchol})
@@ -38,7 +38,7 @@ def gen_cases(tier, seed):
             if len(secs) > lim:
                 secs = [secs[i] for i in sorted(rng.choice(len(secs), lim, replace=False))]
             for (na, nb) in secs:
-                for rep in range(2 if q else 6):
+                for rep in range(2 if q else 20):
                     cases.append({"type": "covariance", "kind": kind, "norb": norb, "nelec": [na, nb], "nchol": int(rng.integers(1, 4)),
                                   "s": int(rng.integers(1 << 30)), "group": "cov-%s-%d-%d-%d" % (kind, norb, na, nb)})
     return cases
